@@ -763,7 +763,10 @@ def _run_cfg(case, o: Oracle, wd: str, BootImageV21) -> None:
         _compare_sections("config_content", model["sections"], exp_round[rnd], fake, o)
     if len(exports) == 2:
         (i1, d1), (i2, d2) = exports
-        m1, m2 = sb2_rom.load(d1, kek, check_signature=False), sb2_rom.load(d2, kek, check_signature=False)
+        try:
+            m1, m2 = sb2_rom.load(d1, kek, check_signature=False), sb2_rom.load(d2, kek, check_signature=False)
+        except sb2_rom.Reject:
+            return  # reported above
         for k_ in ("dek", "mac"):
             if case[k_] is None:
                 o.check("config_keys", m1[k_] != m2[k_], "reused_" + k_, "two builds from one configuration dictionary share the self-chosen %s" % k_)
